@@ -1042,33 +1042,7 @@ func (c *c13) validity() {
 	e, r := c.e, c.e.R
 	r.Rule("C13.validity", "DCS/WMW", "accepted definitions carry only validated values", 5)
 	// (1) SignalOnStop stored only under SignalNum(same value) != 0
-	for _, f := range e.RepoFuncsSorted() {
-		if !c.scope[f] {
-			continue
-		}
-		for _, ev := range e.C.FieldStores(f, "SignalOnStop") {
-			if len(ev.Via) > 0 || ev.Val == nil || ev.Init {
-				continue
-			}
-			if !strings.HasSuffix(ir.NamedType(ev.Root.Type()), "internal/dag.Step") {
-				continue
-			}
-			ok := false
-			for _, l := range e.DCS(ev.Site) {
-				if l.Kind == "cmp" && l.Op == token.NEQ {
-					if k, isC := ir.ConstInt(l.Y); isC && k == 0 {
-						if sc, isCall := ir.Resolve(l.X).(*ssa.Call); isCall && ir.IsCallTo(&sc.Call, "golang.org/x/sys/unix.SignalNum") {
-							if ir.Resolve(sc.Call.Args[0]) == ir.Resolve(ev.Val) {
-								ok = true
-							}
-						}
-					}
-				}
-			}
-			r.Check(ok, shortName(f)+": Step.SignalOnStop stored only when SignalNum(that value) != 0", e.InstrPos(ev.Site),
-				"a signal name is accepted without having been validated itself (the validated text differs from the stored text, or there is no validation): at stop time the stored name resolves to signal 0 and the step is never signalled")
-		}
-	}
+	cSignalNameValid(e, func(f *ssa.Function) bool { return c.scope[f] })
 	// (2) Schedule values only from parsed expressions: wherever the package fills a
 	// Schedule's Expression, the same text was accepted by the cron parser (called
 	// in place or through a helper of the package)
@@ -1324,4 +1298,42 @@ func (c *c13) validity() {
 	if nDyn == 0 {
 		r.Unknown("the call of the field builders", dagRel, "no call through a func() error value of the package found")
 	}
+}
+
+// cSignalNameValid: wherever a Step's SignalOnStop is filled from a computed value,
+// the store is dominated by SignalNum(that same value) != 0 - the resolver the stop
+// path applies to the stored text (shared by C13.validity and C05.signal-name-valid:
+// a name that the stop path resolves to 0 is "delivered" as signal 0, i.e. not at all).
+func cSignalNameValid(e *Env, inScope func(*ssa.Function) bool) int {
+	r := e.R
+	n := 0
+	for _, f := range e.RepoFuncsSorted() {
+		if !inScope(f) {
+			continue
+		}
+		for _, ev := range e.C.FieldStores(f, "SignalOnStop") {
+			if len(ev.Via) > 0 || ev.Val == nil || ev.Init {
+				continue
+			}
+			if !strings.HasSuffix(ir.NamedType(ev.Root.Type()), "internal/dag.Step") {
+				continue
+			}
+			n++
+			ok := false
+			for _, l := range e.DCS(ev.Site) {
+				if l.Kind == "cmp" && l.Op == token.NEQ {
+					if k, isC := ir.ConstInt(l.Y); isC && k == 0 {
+						if sc, isCall := ir.Resolve(l.X).(*ssa.Call); isCall && ir.IsCallTo(&sc.Call, "golang.org/x/sys/unix.SignalNum") {
+							if ir.Resolve(sc.Call.Args[0]) == ir.Resolve(ev.Val) {
+								ok = true
+							}
+						}
+					}
+				}
+			}
+			r.Check(ok, shortName(f)+": Step.SignalOnStop stored only when SignalNum(that value) != 0", e.InstrPos(ev.Site),
+				"a signal name is accepted without having been validated itself (the validated text differs from the stored text, or there is no validation): at stop time the stored name resolves to signal 0 and the step is never signalled")
+		}
+	}
+	return n
 }
